@@ -9,6 +9,14 @@ Engine E1.  Rasters are enumerated as *all* sequences of N (zone, category) cell
            largest N of the non-finite family
   lay_*    3-D values: seven aggregates x layer index {0, -1} x nodata
   sel3_*   3-D values with zone_ids / cat_ids restrictions
+  asel_* / asel3_*   restrictions whose lists mix the ids present (zones from {10, 20, 40}) with the absent ids 5, 25, 99
+           (3-D layer ids 10, 20 with absent 5, 15, 40): absent ids below the minimum, BETWEEN two existing ids and
+           above the maximum, alone and mixed with existing ids, in any order
+  tab_nr*  categories that are close to but different from nodata_values (float64 neighbours, 5e-9 absolute,
+           5e-6 relative): such a cell is valid ("finite, not nodata") and is a category of its own
+  memb_* / memp_* / mem3_*   memory layout of the two rasters (C-ordered, Fortran-ordered, transposed view - 3-D also
+           per-layer column-major - chosen independently for zones and values) on the non-square shapes 2x3, 3x2,
+           2x4 where memory order differs from logical order; the oracle works on logical cell positions
 Families nf / nfa put -inf and +inf (next to NaN) into the 2-D value alphabet: the statement counts only cells whose
 value is "finite, not nodata", so such a cell belongs to no category and not to the zone's valid cells either.
 One rank = one call of xrspatial.zonal.crosstab, compared with the Counter model of xrmc/oracles/zonal.py.
@@ -27,9 +35,16 @@ RULE = ("every sequence of N (zone, category) cells over the listed alphabets (r
         "spaces additionally every selection: zone_ids = each ordered sub-list (length 0..3, no repetition) of (zones "
         "present + absent zone 8) with cat_ids=None, cat_ids = each ordered sub-list (length 0..3) of (categories "
         "present + absent category 7) with zone_ids=None, and each pair of sub-lists of length 0..2 (csel spaces: only "
-        "the cat_ids sub-lists with zone_ids=None); value letters NaN, -inf, +inf are cells without category that do not "
+        "the cat_ids sub-lists with zone_ids=None; asel spaces: the candidates are the ids present + the absent ids "
+        "5, 25, 99, lists of length 0..3 one at a time and pairs of lists of length 0..1); value letters NaN, -inf, +inf are cells without category that do not "
         "count as valid cells of their zone; 3-D: every "
         "sequence of N cells x L layers, seven aggregates, category dimension first (layer=0) or last (layer=-1).  "
+        "Memory-layout spaces: memb = every zones raster over {1, 2} x every values raster over {0, 1} x layout pairs "
+        "(zones, values) in {C, F}^2 minus (C, C); memp = every zones raster over {1, 2} x the position rasters (1..N in "
+        "flatten order; each one-hot raster) x layout pairs in {C, F, T}^2 minus (C, C); mem3 = every zones raster over "
+        "{1, 2} x the cube whose 2N cells hold distinct powers of two x (zones layout in {C, F, T}) x (cube layout in "
+        "{C, F, T, Y}) minus (C, C), where C = C-contiguous, F = np.array(order='F'), T = transposed view of a "
+        "C-contiguous array of the reversed shape, Y = the two spatial axes swapped in memory.  "
         "One case = one call of zonal.crosstab.  A case is non-trivial when the expected table has a non-zero / "
         "defined entry; distinct = distinct digests of the returned table")
 ASSUMPTIONS = [
@@ -47,9 +62,14 @@ ASSUMPTIONS = [
     "(counter 3d_minmax_raised_on_empty_zone_layer) and not reported as a violation",
     "3-D values: the category dimension is the first (layer=0) or the last (layer=-1) one and carries a coordinate",
     "comparison tolerance rtol 1e-9 (atol 1e-12); counts are compared exactly within that tolerance",
+    "near-nodata category letters are float64 only (for nodata=0 the neighbours are the two smallest subnormals); "
+    "category columns are matched by their exact float64 label",
+    "memory layouts: contiguous C / Fortran order, whole-array transposed views and swapped spatial axes only (no "
+    "negative or non-unit strides); rasters are handed to xarray.DataArray without copying (asserted by the check)",
 ]
 NAN, INF = float("nan"), float("inf")
 ABSENT_ZONE, ABSENT_CAT = 8, 7
+ABSENT = {}      # family -> (absent zones, absent categories / layers); default ((8,), (7,)) and 3-D ((8,), (40,))
 AGG2 = ("count", "percentage")
 AGG3 = ("count", "sum", "mean", "min", "max", "std", "var")
 LAYER_IDS = (10, 20, 30)
@@ -73,39 +93,101 @@ FAMILIES = {
     "l3b": ((1.0, 2.0, NAN), (1.0, 3.0), "f8", "f8", (None,)),
     "l2i": ((1, 2, 3), (0, 1, 3), "i4", "i8", (None, 1)),
     "l2x": ((1.0, 2.0, NAN), (1.0, 3.0, -INF, INF), "f8", "f8", (None,)),
+    # absent requested ids below / between / above the existing ones (see ABSENT)
+    "g3": ((10.0, 20.0, 40.0), (10.0, 40.0), "f8", "f8", (None,)),
+    "g3i": ((10, 20, 40), (10, 40), "i8", "i4", (None,)),
+    "g3l": ((10.0, 20.0, 40.0), ("2**i",), "f8", "f8", (None,)),
+    # memory-layout spaces
+    "bin": ((1.0, 2.0), (0.0, 1.0), "f8", "f8", (None,)),
+    "pos": ((1.0, 2.0), ("1..N", "one-hot"), "f8", "f8", (None,)),
+    "pos3": ((1.0, 2.0), ("2**i",), "f8", "f8", (None,)),
 }
-# (kind, family, N values, layers)
+ABSENT.update({"g3": ((5, 25, 99), (5, 25, 99)), "g3i": ((5, 25, 99), (5, 25, 99)), "g3l": ((5, 25, 99), (5, 15, 40))})
+
+
+def near_letters(nd):
+    """nodata itself, its float64 neighbours, values within 1e-9 absolute / 1e-6 relative of it, NaN."""
+    nd = float(nd)
+    rel = nd * (1 + 5e-6) if nd != 0 else -5e-9
+    out = (nd, float(np.nextafter(nd, INF)), float(np.nextafter(nd, -INF)), nd + 5e-9, rel, NAN)
+    assert len({x for x in out if x == x}) == 5
+    return out
+
+
+for _f, _nd in (("nr0", 0), ("nr3", 3), ("nr1k", 1000.0)):
+    FAMILIES[_f] = ((1.0, 2.0, NAN), near_letters(_nd), "f8", "f8", (_nd,))
+MEM_ALL = [(a, b) for a in "CFT" for b in "CFT" if (a, b) != ("C", "C")]
+MEM_CF = [(a, b) for a in "CF" for b in "CF" if (a, b) != ("C", "C")]
+MEM_3D = [(a, b) for a in "CFT" for b in "CFTY" if (a, b) != ("C", "C")]
+MEM_SHAPES = ((2, 3), (3, 2), (2, 4))
+# list-length caps of the restriction spaces: (zone lists, cat lists, zone lists in a pair, cat lists in a pair)
+SEL_CAPS = {"sel": (3, 3, 2, 2), "selt": (3, 3, 2, 2), "csel": (0, 3, None, None), "asel": (3, 3, 1, 1),
+            "sel3": (2, 2, 2, 1), "asel3": (3, 2, 1, 1)}
+
+
+def laid_out(a, how, spatial=(0, 1)):
+    """Copy of `a` (same logical content) with the requested memory layout."""
+    if how == "C":
+        return a.copy(order="C")
+    if how == "F":
+        return np.array(a, order="F", copy=True)
+    if how == "T":
+        return a.T.copy(order="C").T
+    if how == "Y":
+        return np.swapaxes(np.swapaxes(a, *spatial).copy(order="C"), *spatial)
+    raise KeyError(how)
+# (kind, family, N values, layers[, shapes])
 PLAN = {
     "quick": [("tab", "f12", (1, 2, 3), 0), ("tab", "f12a", (4,), 0), ("tab", "f20", (1, 2, 3), 0),
               ("tab", "i12", (1, 2, 3), 0),
-              ("sel", "f12", (1, 2), 0), ("sel", "f12a", (3,), 0), ("sel", "i6", (1, 2), 0),
+              ("sel", "f12", (1, 2), 0), ("selt", "f12a", (3,), 0), ("sel", "i6", (1, 2), 0),
               ("tab", "nf", (1, 2, 3), 0), ("sel", "nf", (1,), 0), ("sel", "nfa", (2,), 0), ("csel", "nfa", (3,), 0),
               ("lay", "l2w", (1,), 2), ("lay", "l2", (2,), 2), ("lay", "l3", (1,), 3), ("lay", "l3b", (2,), 3),
               ("lay", "l2i", (1, 2), 2),
-              ("sel3", "l2", (1,), 2), ("sel3", "l2b", (2,), 2)],
+              ("sel3", "l2", (1,), 2), ("sel3", "l2b", (2,), 2),
+              ("tab", "nr0", (1, 2), 0), ("tab", "nr3", (1, 2), 0), ("tab", "nr1k", (1, 2, 3), 0),
+              ("asel", "g3", (1, 2, 3), 0), ("asel3", "g3l", (3,), 2),
+              ("memb", "bin", (6,), 0, MEM_SHAPES), ("memp", "pos", (6, 8), 0, MEM_SHAPES),
+              ("mem3", "pos3", (6, 8), 2, MEM_SHAPES)],
     "thorough": [("tab", "f12", (1, 2, 3, 4, 5), 0), ("tab", "f20", (1, 2, 3, 4), 0), ("tab", "i12", (1, 2, 3, 4), 0),
                  ("sel", "f12", (1, 2, 3), 0), ("sel", "f20", (1, 2, 3), 0), ("sel", "i12", (1, 2, 3), 0),
                  ("tab", "nf", (1, 2, 3, 4), 0), ("sel", "nf", (1, 2), 0), ("sel", "nfa", (3,), 0),
                  ("lay", "l2w", (1, 2), 2), ("lay", "l2", (3,), 2), ("lay", "l3", (1, 2), 3), ("lay", "l3b", (3,), 3),
                  ("lay", "l2i", (1, 2, 3), 2), ("lay", "l2x", (2,), 2),
-                 ("sel3", "l2", (1, 2), 2), ("sel3", "l2b", (3,), 2), ("sel3", "l3b", (1, 2), 3)],
+                 ("sel3", "l2", (1, 2), 2), ("sel3", "l2b", (3,), 2), ("sel3", "l3b", (1, 2), 3),
+                 ("tab", "nr0", (1, 2, 3), 0), ("tab", "nr3", (1, 2, 3), 0), ("tab", "nr1k", (1, 2, 3), 0),
+                 ("asel", "g3", (1, 2, 3), 0), ("asel", "g3i", (1, 2, 3), 0), ("asel3", "g3l", (2, 3), 2),
+                 ("memb", "bin", (6,), 0, MEM_SHAPES), ("memp", "pos", (6, 8), 0, MEM_SHAPES),
+                 ("mem3", "pos3", (6, 8), 2, MEM_SHAPES)],
 }
 
 
-def layouts(n):
+def layouts(n, shapes=None):
+    if shapes is not None:
+        return [tuple(s) for s in shapes if s[0] * s[1] == n]
     return [(1, n)] + ([(2, n // 2)] if n % 2 == 0 else [])
 
 
-BOUNDS = {t: {"spaces": [dict(kind=k, family=f, zone_alphabet=[str(x) for x in FAMILIES[f][0]],
-                              category_or_layer_value_alphabet=[str(x) for x in FAMILIES[f][1]],
-                              dtypes=list(FAMILIES[f][2:4]), nodata_values=[str(x) for x in FAMILIES[f][4]],
-                              cells=list(ns), layers=L, layouts={n: layouts(n) for n in ns}) for k, f, ns, L in plan],
+BOUNDS = {t: {"spaces": [dict(kind=e[0], family=e[1], zone_alphabet=[str(x) for x in FAMILIES[e[1]][0]],
+                              category_or_layer_value_alphabet=[str(x) for x in FAMILIES[e[1]][1]],
+                              dtypes=list(FAMILIES[e[1]][2:4]), nodata_values=[str(x) for x in FAMILIES[e[1]][4]],
+                              cells=list(e[2]), layers=e[3], layouts={n: layouts(n, *e[4:]) for n in e[2]},
+                              absent_zones_and_cats=ABSENT.get(e[1])) for e in plan],
               "agg_2d": list(AGG2), "agg_3d": list(AGG3), "layer_index": [0, -1],
               "absent_zone": ABSENT_ZONE, "absent_category": ABSENT_CAT, "layer_ids": list(LAYER_IDS),
               "selections": "zone lists <=3 | cat lists <=3 | pairs of lists <=2 (3-D: zone lists <=2 | cat lists <=2 | "
-                            "zone lists <=2 x cat lists <=1); kind csel: cat lists <=3 only, zone_ids absent",
+                            "zone lists <=2 x cat lists <=1); kind csel: cat lists <=3 only, zone_ids absent; kind selt: "
+                            "as sel but in a pair one of the two lists has length <=1; kind asel (absent ids 5, 25, 99 "
+                            "next to the present ones): zone lists <=3 | cat lists <=3 | pairs of lists <=1, N>=3: agg count only; kind asel3: "
+                            "zone lists <=3 | layer lists <=2 | pairs of lists <=1, agg count / sum",
+              "memory_layouts": {"memb": ["z%s,v%s" % m for m in MEM_CF] + ["agg count"],
+                                 "memp": ["z%s,v%s" % m for m in MEM_ALL] + ["agg count, percentage (N=8: count)"],
+                                 "mem3": ["z%s,v%s" % m for m in MEM_3D] + ["agg sum, max; layer 0, -1"]},
               "trimmed": ("the unrestricted N=4 table of family f12 runs with nodata_values=None only (tab_f12a_N4; "
-                          "nodata=2 stays at N<=3, nodata=9 in f20/i12) to pay for the non-finite families nf/nfa"
+                          "nodata=2 stays at N<=3, nodata=9 in f20/i12) to pay for the non-finite families nf/nfa; "
+                          "the N=3 restriction space of family f12a (selt_f12a_N3) pairs a zone list with a cat list only "
+                          "when one of the two has length <=1 (pairs of two 2-element lists stay at N<=2) to pay for the "
+                          "asel / mem / near-nodata spaces"
                           if t == "quick" else "nothing")}
           for t, plan in PLAN.items()}
 
@@ -155,17 +237,18 @@ def _matches(obs, tab, rtol=1e-9, atol=1e-12):
 
 
 class CrosstabSpace(Space):
-    def __init__(self, kind, fam, n, nlayers):
+    def __init__(self, kind, fam, n, nlayers, shapes=None):
         self.kind, self.fam, self.n, self.L = kind, fam, n, nlayers
         self.za, self.va, self.zdt, self.vdt, self.nodata_opts = FAMILIES[fam]
         self.name = "%s_%s_N%d" % (kind, fam, n)
-        self.lay = layouts(n)
+        self.lay = layouts(n, shapes)
         self.nvals = n * max(1, nlayers)
-        self.nzseq, self.nvseq = len(self.za) ** n, len(self.va) ** self.nvals
+        self.nzseq = len(self.za) ** n
+        self.nvseq = {"pos": n + 1, "pos3": 1, "g3l": 1}.get(fam) or len(self.va) ** self.nvals
         self._vc = {}
         self.fint = self.zdt.startswith("i")
-        self.selkind = kind in ("sel", "csel")
-        if kind in ("tab", "lay"):      # parameter settings do not depend on the raster: plain product
+        self.selkind = kind in ("sel", "selt", "csel", "asel")
+        if kind in ("tab", "lay", "memb", "memp", "mem3"):      # parameter settings do not depend on the raster: plain product
             self.fixed = self.variants((), ())
             self.size = self.nzseq * self.nvseq * len(self.fixed)
         else:
@@ -188,6 +271,10 @@ class CrosstabSpace(Space):
         return [self.za[i] for i in unrank_product(zi, [len(self.za)] * self.n)]
 
     def vseq(self, vi):
+        if self.fam == "pos":        # position rasters: 1..N in flatten order, then the one-hot rasters
+            return [float(i + 1) for i in range(self.n)] if vi == 0 else [float(i == vi - 1) for i in range(self.n)]
+        if self.fam in ("pos3", "g3l"):     # the cube whose L*N cells hold distinct powers of two (layer-major)
+            return [float(2 ** i) for i in range(self.nvals)]
         return [self.va[i] for i in unrank_product(vi, [len(self.va)] * self.nvals)]
 
     @staticmethod
@@ -203,23 +290,31 @@ class CrosstabSpace(Space):
             v = [(s, None, None, a, nd, None) for s in self.lay for a in AGG2 for nd in self.nodata_opts]
         elif self.kind == "lay":
             v = [(s, None, None, a, nd, ly) for s in self.lay for a in AGG3 for nd in self.nodata_opts for ly in (0, -1)]
+        elif self.kind == "memb":
+            v = [(s, None, None, "count", None, None, m) for s in self.lay for m in MEM_CF]
+        elif self.kind == "memp":
+            v = [(s, None, None, a, None, None, m) for s in self.lay for m in MEM_ALL
+                 for a in (AGG2 if self.n <= 6 else AGG2[:1])]
+        elif self.kind == "mem3":
+            v = [(s, None, None, a, None, ly, m) for s in self.lay for m in MEM_3D for a in ("sum", "max") for ly in (0, -1)]
         else:
-            az = ABSENT_ZONE if self.fint else float(ABSENT_ZONE)
+            absz, absc = ABSENT.get(self.fam, ((ABSENT_ZONE,), (ABSENT_CAT,) if self.selkind else (40,)))
+            zc = list(zones) + [a if self.fint else float(a) for a in absz]
+            capz, capc, pz, pc = SEL_CAPS[self.kind]
             if self.selkind:
-                ac = ABSENT_CAT if self.vdt.startswith("i") else float(ABSENT_CAT)
-                zc = list(zones) + [az]
-                cc = list(cats) + [ac]
+                cc = list(cats) + [a if self.vdt.startswith("i") else float(a) for a in absc]
                 if self.kind == "csel":
-                    sel = [(None, cl) for cl in _sublists(cc, 3)]
+                    sel = [(None, cl) for cl in _sublists(cc, capc)]
                 else:
-                    sel = [(zl, None) for zl in _sublists(zc, 3)] + [(None, cl) for cl in _sublists(cc, 3)] \
-                        + [(zl, cl) for zl in _sublists(zc, 2) for cl in _sublists(cc, 2)]
-                v = [(s, zl, cl, a, nodata, None) for s in self.lay for zl, cl in sel for a in AGG2]
+                    sel = [(zl, None) for zl in _sublists(zc, capz)] + [(None, cl) for cl in _sublists(cc, capc)] \
+                        + [(zl, cl) for zl in _sublists(zc, pz) for cl in _sublists(cc, pc)
+                           if self.kind != "selt" or len(zl) <= 1 or len(cl) <= 1]
+                v = [(s, zl, cl, a, nodata, None) for s in self.lay for zl, cl in sel
+                     for a in (AGG2[:1] if self.kind == "asel" and self.n >= 3 else AGG2)]
             else:
-                zc = list(zones) + [az]
-                cc = list(LAYER_IDS[:self.L]) + [40]
-                sel = [(zl, None) for zl in _sublists(zc, 2)] + [(None, cl) for cl in _sublists(cc, 2)] \
-                    + [(zl, cl) for zl in _sublists(zc, 2) for cl in _sublists(cc, 1)]
+                cc = list(LAYER_IDS[:self.L]) + list(absc)
+                sel = [(zl, None) for zl in _sublists(zc, capz)] + [(None, cl) for cl in _sublists(cc, capc)] \
+                    + [(zl, cl) for zl in _sublists(zc, pz) for cl in _sublists(cc, pc)]
                 v = [(s, zl, cl, a, nodata, ly) for s in self.lay for zl, cl in sel for a in ("count", "sum")
                      for ly in (0, -1)]
         self._vc[key] = v
@@ -249,11 +344,16 @@ class CrosstabSpace(Space):
         z = np.array(self.zseq(zi), dtype=self.zdt).reshape(shape)
         vals = np.array(self.vseq(vi), dtype=self.vdt)
         v = vals.reshape((self.L,) + shape) if self.L else vals.reshape(shape)
-        return (z, v) + tuple(var[1:])
+        return (z, v) + tuple(var[1:6]) + (var[6] if len(var) > 6 else ("C", "C"),)
 
     def describe(self, rank):
-        z, v, zone_ids, cat_ids, agg, nodata, layer = self.case(rank)
+        z, v, zone_ids, cat_ids, agg, nodata, layer, mem = self.case(rank)
         d = {"zones": z, "values": v, "zone_ids": zone_ids, "cat_ids": cat_ids, "agg": agg, "nodata_values": nodata}
+        if mem != ("C", "C"):
+            d["memory_layout"] = {"zones": mem[0], "values": mem[1],
+                                  "legend": "C = C-contiguous, F = np.array(a, order='F'), T = a.T.copy().T (transposed "
+                                            "view), Y = the two spatial axes swapped in memory (view); for 3-D values the "
+                                            "layout is that of the array handed to the call"}
         if self.L:
             d.update(values_dims=["cat", "y", "x"] if layer == 0 else ["y", "x", "cat"], layer=layer,
                      layer_ids=list(LAYER_IDS[:self.L]),
@@ -273,7 +373,7 @@ class CrosstabSpace(Space):
             self.one(rank, out)
 
     def one(self, rank, out):
-        z, v, zone_ids, cat_ids, agg, nodata, layer = self.case(rank)
+        z, v, zone_ids, cat_ids, agg, nodata, layer, mem = self.case(rank)
         L = self.L
         kw = {"agg": agg}
         if zone_ids is not None:
@@ -282,19 +382,28 @@ class CrosstabSpace(Space):
             kw["cat_ids"] = list(cat_ids)
         if nodata is not None:
             kw["nodata_values"] = nodata
-        zda = self.DataArray(z.copy(), dims=("y", "x"))
+        zin = laid_out(z, mem[0])
+        zda = self.DataArray(zin, dims=("y", "x"))
         if not L:
-            vda = self.DataArray(v.copy(), dims=("y", "x"))
+            vin = laid_out(v, mem[1])
+            vda = self.DataArray(vin, dims=("y", "x"))
         elif layer == 0:
-            vda = self.DataArray(v.copy(), dims=("cat", "y", "x"), coords={"cat": list(LAYER_IDS[:L])})
+            vin = laid_out(v, mem[1], (1, 2))
+            vda = self.DataArray(vin, dims=("cat", "y", "x"), coords={"cat": list(LAYER_IDS[:L])})
         else:
-            vda = self.DataArray(np.ascontiguousarray(np.moveaxis(v, 0, -1)), dims=("y", "x", "cat"),
-                                 coords={"cat": list(LAYER_IDS[:L])})
+            vin = laid_out(np.moveaxis(v, 0, -1), mem[1], (0, 1))
+            vda = self.DataArray(vin, dims=("y", "x", "cat"), coords={"cat": list(LAYER_IDS[:L])})
             kw["layer"] = -1
+        assert zda.data.strides == zin.strides and vda.data.strides == vin.strides       # handed over without a copy
         ident = "z=%s|%s=%s|%s%s|zone_ids=%s|cat_ids=%s|agg=%s|nodata=%s%s" % (
             _fmt(z), "layers" if L else "v", _fmt(v), self.zdt, self.vdt, zone_ids, cat_ids, agg, nodata,
             "|layer=%d" % layer if L else "")
         ident = ident.replace(" ", "")
+        if mem != ("C", "C"):
+            ident += "|mem=z%s,v%s" % mem
+            for a, how in ((zin, mem[0]), (vin, mem[1])):       # the layout really is the one named
+                assert a.flags.c_contiguous == (how == "C") and a.flags.f_contiguous == (how in "FT"), (how, a.flags)
+            out.count("layout:z%s,v%s" % mem)
         what = "crosstab3d" if L else "crosstab2d"
         if not self.vdt.startswith("i") and np.isinf(v).any():
             out.count("cases_with_inf_value_cell")
@@ -370,4 +479,4 @@ class CrosstabSpace(Space):
 
 
 def build(tier):
-    return [CrosstabSpace(kind, fam, n, L) for kind, fam, ns, L in PLAN[tier] for n in ns]
+    return [CrosstabSpace(e[0], e[1], n, e[3], *e[4:]) for e in PLAN[tier] for n in e[2]]
